@@ -16,7 +16,7 @@
 (*     UpdateMapping   Get(mapping:<id>) -> Set(mapping:<id>, json')                            *)
 (*     LookupByDomain  Get(index:<name>) -> Get(mapping:<id>)                                   *)
 (*   internal/command/handler_http_domain_create.go + app/server/http_domain_repository_adapter *)
-(*     (ViaHandler = TRUE)  Exists(index:<name>) -> CreateMapping -> UpdateMapping (expiry)     *)
+(*     (p in HandlerProcs)  Exists(index:<name>) -> CreateMapping -> UpdateMapping (expiry)     *)
 (*   internal/httpservice/modules/domainproxy/mapping_lookup.go  lookupMapping                  *)
 (*     extractDomain(host) -> repository (status / expiry check) -> DomainRegistry.LookupByHost *)
 (*     -> CloudControl.GetPortMappingByDomain (+ cache into the registry)                       *)
@@ -44,7 +44,7 @@ CONSTANTS ProcsC1, ProcsC2,  \* API-call processes acting with the proven identi
           Pre,               \* TRUE: mapping 1 (client c1, first name) exists initially
           Faults,            \* number of storage writes that fail (0 or 1)
           Guess,             \* TRUE: Delete may target ids that no create has returned yet
-          ViaHandler,        \* TRUE: Create = the command handler path (pre-check + expiry update)
+          HandlerProcs,      \* processes whose Create is the command handler path (pre-check + expiry update)
           Serial,               \* TRUE: calls do not overlap (sequential histories)
           MaxLegacy,         \* number of legacy (management API) HTTP mappings that may be created
           Fix,               \* TRUE: model of the repaired DeleteMapping / rollback
@@ -93,8 +93,10 @@ Init == /\ nextId = PreN
 Out(h) == IF Emit THEN PrintT("BEH " \o ToJson(h)) ELSE TRUE
 \* one history entry per step: process, action, whether the storage write of this step was made to fail,
 \* the arguments of a call, and - on the step that makes the call return - the result the model expects
+\* (compact encoding "p|a|f|r" resp. "p|a|f|r|op|c|n|id|st" to keep the generated output small)
 Log(e) == hist' = Append(hist, e) /\ Out(hist')
-St(p, a, f, r) == [p |-> p, a |-> a, f |-> f, r |-> r]
+St(p, a, f, r) == p \o "|" \o a \o "|" \o (IF f THEN "1" ELSE "0") \o "|" \o r
+CallSt(p, a, op, c, n, i, st) == St(p, a, FALSE, "-") \o "|" \o op \o "|" \o c \o "|" \o n \o "|" \o ToString(i) \o "|" \o st
 
 Live == okc \ deld                         \* created successfully, no effective delete has begun
 Known == IF Guess THEN Ids ELSE okc        \* ids a client can name in a Delete / Update call
@@ -115,27 +117,27 @@ Call(p, c, first) ==
 
 CallCreate(p, n) ==
   /\ p \in CProcs /\ done[p] < MaxOps /\ "Create" \in Kinds
-  /\ Call(p, [NoCur EXCEPT !.op = "Create", !.n = n, !.st = "active"], IF ViaHandler THEN "C_pre" ELSE "C_id")
+  /\ Call(p, [NoCur EXCEPT !.op = "Create", !.n = n, !.st = "active"], IF p \in HandlerProcs THEN "C_pre" ELSE "C_id")
   /\ snap' = snap
-  /\ Log([p |-> p, a |-> "Call", f |-> FALSE, r |-> "-", op |-> "Create", c |-> Cl(p), n |-> n, id |-> 0, st |-> "-"])
+  /\ Log(CallSt(p, "Call", "Create", Cl(p), n, 0, "-"))
 
 CallDelete(p, i) ==
   /\ p \in CProcs /\ done[p] < MaxOps /\ "Delete" \in Kinds /\ i \in Known
   /\ Call(p, [NoCur EXCEPT !.op = "Delete", !.id = i, !.res = "ok"], "D_get")
   /\ snap' = snap
-  /\ Log([p |-> p, a |-> "Call", f |-> FALSE, r |-> "-", op |-> "Delete", c |-> Cl(p), n |-> "-", id |-> i, st |-> "-"])
+  /\ Log(CallSt(p, "Call", "Delete", Cl(p), "-", i, "-"))
 
 CallUpdate(p, i, s) ==     \* only the owner's side ever updates (expiry / status); no client-facing path
   /\ p \in CProcs /\ done[p] < MaxOps /\ "Update" \in Kinds /\ i \in okc /\ meta[i].c = Cl(p)
   /\ Call(p, [NoCur EXCEPT !.op = "Update", !.id = i, !.st = s], "U_get")
   /\ snap' = snap
-  /\ Log([p |-> p, a |-> "Call", f |-> FALSE, r |-> "-", op |-> "Update", c |-> Cl(p), n |-> "-", id |-> i, st |-> s])
+  /\ Log(CallSt(p, "Call", "Update", Cl(p), "-", i, s))
 
 CallLookup(q, n) ==
   /\ q \in LookProcs /\ done[q] < MaxLook
   /\ Call(q, [NoCur EXCEPT !.op = "Lookup", !.n = n], "L_idx")
   /\ snap' = [snap EXCEPT ![q] = [dead |-> delok \cup failc, inact |-> inact, legdead |-> legdead]]
-  /\ Log([p |-> q, a |-> "Call", f |-> FALSE, r |-> "-", op |-> "Lookup", c |-> "-", n |-> n, id |-> 0, st |-> "-"])
+  /\ Log(CallSt(q, "Call", "Lookup", "-", n, 0, "-"))
 
 \* the call of p returns
 Return(p) == /\ pc' = [pc EXCEPT ![p] = "idle"] /\ done' = [done EXCEPT ![p] = done[p] + 1]
@@ -184,7 +186,7 @@ CList(p) ==  \* AppendToList(client:<c>, id); a failure rolls record and index b
   /\ pc[p] = "C_list"
   /\ \/ /\ clist' = [clist EXCEPT ![Cl(p)] = @ \cup {cur[p].id}]
         /\ fault' = fault
-        /\ IF ViaHandler THEN Goto(p, "C_uget") /\ okc' = okc /\ Log(St(p, "AddList", FALSE, "-"))
+        /\ IF p \in HandlerProcs THEN Goto(p, "C_uget") /\ okc' = okc /\ Log(St(p, "AddList", FALSE, "-"))
                          ELSE Return(p) /\ CreateOk(p) /\ Log(St(p, "AddList", FALSE, "ok"))
      \/ /\ fault > 0 /\ fault' = fault - 1 /\ clist' = clist /\ okc' = okc
         /\ Goto(p, IF Fix THEN "R_lock" ELSE "C_rb_rec") /\ Log(St(p, "AddList", TRUE, "-"))
@@ -327,9 +329,16 @@ RIdx(p) ==
 RRec(p) ==
   /\ pc[p] = "R_rec"
   /\ rec' = [rec EXCEPT ![cur[p].id] = NoRec]
-  /\ Goto(p, "R_unlock")
+  /\ Goto(p, "R_list")
   /\ UNCHANGED <<nextId, index, clist, dlock, cur, tmp, fault>> /\ U_leg /\ U_ghost
   /\ Log(St(p, "RbRec", FALSE, "-"))
+
+RList(p) ==
+  /\ pc[p] = "R_list"
+  /\ clist' = [clist EXCEPT ![Cl(p)] = @ \ {cur[p].id}]
+  /\ Goto(p, "R_unlock")
+  /\ UNCHANGED <<nextId, index, rec, dlock, cur, tmp, fault>> /\ U_leg /\ U_ghost
+  /\ Log(St(p, "RbList", FALSE, "-"))
 
 RUnlock(p) ==
   /\ pc[p] = "R_unlock"
@@ -398,15 +407,15 @@ LRec(q) ==   \* Get(mapping:<id>), status / expiry check
 \* here = TRUE: the call is served by the proxy node (its registry is updated as well)
 LegCreate(c, n, here) ==
   /\ nleg < MaxLegacy /\ (Serial => AllIdle)
-  /\ IF here THEN reg[n] = NoLeg ELSE cc[n] = NoLeg        \* IsSubdomainAvailable of the serving node's registry
+  /\ reg[n] = NoLeg \/ ~here                               \* IsSubdomainAvailable of the serving node's registry
+  /\ cc[n] = NoLeg                                         \* (the administrator does not book a name twice across nodes)
   /\ nleg' = nleg + 1
   /\ cc' = [cc EXCEPT ![n] = [id |-> nleg + 1, c |-> c]]
   /\ reg' = IF here THEN [reg EXCEPT ![n] = [id |-> nleg + 1, c |-> c]] ELSE reg
   /\ dev' = dev \cup (IF \E i \in Live : meta[i].n = n THEN {"crossSourceClaim"} ELSE {})
                 \cup (IF ~here /\ reg[n] # NoLeg THEN {"staleRegistryCache"} ELSE {})
   /\ UNCHANGED <<pc, cur, tmp, done, fault, legdead, okc, failc, deld, delok, inact, meta, snap, bad>> /\ U_store
-  /\ Log([p |-> "adm", a |-> "LegCreate", f |-> FALSE, r |-> "-", op |-> "LegCreate", c |-> c, n |-> n, id |-> nleg + 1,
-          st |-> IF here THEN "here" ELSE "other"])
+  /\ Log(CallSt("adm", "LegCreate", "LegCreate", c, n, nleg + 1, IF here THEN "here" ELSE "other"))
 
 LegDelete(n, here) ==
   /\ cc[n] # NoLeg /\ (Serial => AllIdle)
@@ -415,8 +424,7 @@ LegDelete(n, here) ==
   /\ legdead' = legdead \cup {cc[n].id}
   /\ dev' = IF ~here /\ reg[n].id = cc[n].id THEN dev \cup {"staleRegistryCache"} ELSE dev
   /\ UNCHANGED <<pc, cur, tmp, done, fault, nleg, okc, failc, deld, delok, inact, meta, snap, bad>> /\ U_store
-  /\ Log([p |-> "adm", a |-> "LegDelete", f |-> FALSE, r |-> "-", op |-> "LegDelete", c |-> cc[n].c, n |-> n, id |-> cc[n].id,
-          st |-> IF here THEN "here" ELSE "other"])
+  /\ Log(CallSt("adm", "LegDelete", "LegDelete", cc[n].c, n, cc[n].id, IF here THEN "here" ELSE "other"))
 
 Next == \/ \E p \in CProcs : \/ \E n \in Names : CallCreate(p, n)
                              \/ \E i \in Ids : CallDelete(p, i)
@@ -425,7 +433,7 @@ Next == \/ \E p \in CProcs : \/ \E n \in Names : CallCreate(p, n)
                              \/ CUGet(p) \/ CUSet(p)
                              \/ DGet(p) \/ DIdx(p) \/ DRec(p) \/ DList(p)
                              \/ DLock(p) \/ DGet2(p) \/ DIGet(p) \/ DUnlock(p)
-                             \/ RLock(p) \/ RGet(p) \/ RIGet(p) \/ RIdx(p) \/ RRec(p) \/ RUnlock(p)
+                             \/ RLock(p) \/ RGet(p) \/ RIGet(p) \/ RIdx(p) \/ RRec(p) \/ RList(p) \/ RUnlock(p)
                              \/ UGet(p) \/ USet(p)
         \/ \E q \in LookProcs : \/ \E n \in Names : CallLookup(q, n)
                                 \/ LIdx(q) \/ LRec(q)
